@@ -17,11 +17,11 @@ fn run(cap0: usize, ops: &[Op]) -> Option<String> {
     for (k, op) in ops.iter().enumerate() {
         match op {
             Op::Add(x) => { if m.full() { continue; } let r = std::panic::catch_unwind(std::panic::AssertUnwindSafe(|| real.add(*x))); if r.is_err() { return Some(format!("op #{} {:?}: add panicked although the model window is not full", k, op)); } m.items.push_back(*x); }
-            Op::FreeTo(t) => { real.free_to(*t); let had = !m.items.is_empty(); while m.items.front().map_or(false, |f| *f <= *t) { m.items.pop_front(); } if had { m.drained(); } }
-            Op::FreeFirst => { real.free_first_one(); if let Some(f) = m.items.front().cloned() { while m.items.front().map_or(false, |g| *g <= f) { m.items.pop_front(); } m.drained(); } }
-            Op::Reset => { real.reset(); m.items.clear(); if let Some(p) = m.pending.take() { m.cap = p; } }
-            Op::SetCap(c) => { real.set_cap(*c); if *c >= m.cap || m.items.is_empty() { m.cap = *c; m.pending = None; } else { m.pending = Some(*c); } }
-            Op::MaybeFree => { real.maybe_free_buffer(); }
+            Op::FreeTo(t) => { if std::panic::catch_unwind(std::panic::AssertUnwindSafe(|| real.free_to(*t))).is_err() { return Some(format!("op #{} {:?} panicked", k, op)); } let had = !m.items.is_empty(); while m.items.front().map_or(false, |f| *f <= *t) { m.items.pop_front(); } if had { m.drained(); } }
+            Op::FreeFirst => { if std::panic::catch_unwind(std::panic::AssertUnwindSafe(|| real.free_first_one())).is_err() { return Some(format!("op #{} {:?} panicked", k, op)); } if let Some(f) = m.items.front().cloned() { while m.items.front().map_or(false, |g| *g <= f) { m.items.pop_front(); } m.drained(); } }
+            Op::Reset => { if std::panic::catch_unwind(std::panic::AssertUnwindSafe(|| real.reset())).is_err() { return Some(format!("op #{} {:?} panicked", k, op)); } m.items.clear(); if let Some(p) = m.pending.take() { m.cap = p; } }
+            Op::SetCap(c) => { if std::panic::catch_unwind(std::panic::AssertUnwindSafe(|| real.set_cap(*c))).is_err() { return Some(format!("op #{} {:?} panicked although the model accepts the capacity change", k, op)); } if *c >= m.cap || m.items.is_empty() { m.cap = *c; m.pending = None; } else { m.pending = Some(*c); } }
+            Op::MaybeFree => { if std::panic::catch_unwind(std::panic::AssertUnwindSafe(|| real.maybe_free_buffer())).is_err() { return Some(format!("op #{} {:?} panicked", k, op)); } }
         }
         if real.count() != m.items.len() { return Some(format!("op #{} {:?}: count {} but the model holds {}", k, op, real.count(), m.items.len())); }
         if real.full() != m.full() { return Some(format!("op #{} {:?}: full() = {} but the model says {}", k, op, real.full(), m.full())); }
@@ -32,7 +32,7 @@ fn run(cap0: usize, ops: &[Op]) -> Option<String> {
     // read contents by freeing up to each candidate value in increasing order
     let mut vals: Vec<u64> = m.items.iter().cloned().collect(); vals.sort(); vals.dedup();
     let mut mm: VecDeque<u64> = m.items.clone();
-    for v in vals { probe.free_to(v); while mm.front().map_or(false, |f| *f <= v) { seen.push(mm.pop_front().unwrap()); } if probe.count() != mm.len() { return Some(format!("after the sequence, free_to({}) leaves {} items but the model leaves {} (items lost, duplicated or reordered)", v, probe.count(), mm.len())); } }
+    for v in vals { if std::panic::catch_unwind(std::panic::AssertUnwindSafe(|| probe.free_to(v))).is_err() { return Some(format!("reading the window back: free_to({}) panicked", v)); } while mm.front().map_or(false, |f| *f <= v) { seen.push(mm.pop_front().unwrap()); } if probe.count() != mm.len() { return Some(format!("after the sequence, free_to({}) leaves {} items but the model leaves {} (items lost, duplicated or reordered)", v, probe.count(), mm.len())); } }
     None
 }
 fn gen(rng: &mut Rng) -> (usize, Vec<Op>) {
